@@ -137,7 +137,7 @@ def angle4(a, b):
     return 2.0 * np.arctan2(np.linalg.norm(a - b, axis=-1), np.linalg.norm(a + b, axis=-1))
 
 
-def judge_slerp(ctx, r, res, p, q, t):
+def judge_slerp(ctx, r, res, p, q, t, thr=None):
     x = as_real_array(ctx, res, (len(t), 4), route=r, what="interpolants")
     if x is None:
         return None
@@ -150,7 +150,7 @@ def judge_slerp(ctx, r, res, p, q, t):
         end_err = min(end_err, np.abs(x[-1] + qe).max())
         ref_alt = ref_slerp(p, -q, t)[0]
     ctx.le("ends at the second endpoint or its nearer antipode", end_err, 1e-12, {"end": x[-1], "expected": qe}, route=r)
-    lerp_allow = (om ** 3) / 20.0 if dot > DEFAULT_THRESHOLD - 1e-9 else 0.0
+    lerp_allow = (om ** 3) / 20.0 if dot > (DEFAULT_THRESHOLD if thr is None else thr) - 1e-9 else 0.0
     ang = angle4(x, p[None])
     ctx.le("angle from the first endpoint = weight x total angle", np.abs(ang - t * om).max(), 1e-12 + lerp_allow,
            {"omega": om, "dot": dot, "t": t, "angles": ang}, route=r)
@@ -185,6 +185,13 @@ def check_pair(case, ctx):
                 if y.shape == x.shape and dot > 1e-9:
                     d = np.minimum(np.abs(y - x).max(axis=1), np.abs(y + x).max(axis=1)).max()
                     ctx.le("negating an endpoint does not change the path (as rotations)", d, 1e-12, {"which": nm}, route=r)
+    # the documented threshold option (where the linear shortcut takes over): the path must stay the great arc to the accuracy that threshold implies
+    thr = float([0.9, 0.99, 0.999999, 0.95][int(abs(p[0]) * 1e6) % 4])
+    if abs(float(p @ q)) < 1.0 - 1e-9:
+        for r, fn in (("quaternion.slerp", Q.slerp), ("orientation.slerp", O.slerp)):
+            out = call(lambda: fn(p.copy(), q.copy(), t.copy(), threshold=thr))
+            if ctx.returned(out, clause="no-exception[threshold=]", route=r):
+                judge_slerp(ctx, r, out.value, p, q, t, thr=thr)
     if case.region != "pair:orthogonal":
         out = call(lambda: (Q.slerp(p.tolist(), q.tolist(), t.tolist()), Q.slerp(p.copy(), q.copy(), t.copy())))
         if ctx.returned(out, route="quaternion.slerp"):
